@@ -147,6 +147,18 @@ FULL_OVERRIDES = {
     ('frame', 'spacing'): 0.5, ('frame', 'index_min'): 1.0, ('frame', 'index_max'): 2.0, ('frame', 'direction'): 'INCREASING',
     ('frame', 'encrypted'): 0,
 }
+# base mode 'rank2': objects whose values have dimension [2, 2] (values nested three levels deep)
+RANK2_KINDS = ('computation', 'parameter', 'calibration_measurement')
+V222 = [[[1.5, 2.5], [3.5, 4.5]]]
+RANK2_OVERRIDES = {
+    ('computation', 'dimension'): [2, 2], ('computation', 'axis'): [R_('A0'), R_('A1')], ('computation', 'values'): V222,
+    ('parameter', 'dimension'): [2, 2], ('parameter', 'axis'): [R_('A0'), R_('A1')], ('parameter', 'values'): V222,
+    ('calibration_measurement', 'dimension'): [2, 2], ('calibration_measurement', 'axis'): [R_('A0'), R_('A1')],
+    ('calibration_measurement', 'measurement'): V222, ('calibration_measurement', 'maximum_deviation'): V222,
+    ('calibration_measurement', 'standard_deviation'): V222, ('calibration_measurement', 'reference'): V222,
+    ('calibration_measurement', 'standard'): V222, ('calibration_measurement', 'plus_tolerance'): V222,
+    ('calibration_measurement', 'minus_tolerance'): [[[0.5, 0.25], [0.125, 1.0]], [[2.0, 3.0], [4.0, 5.0]]],
+}
 UNIT_OPTS = [None, 'm', {'$enum': ['Unit', 'SECOND'], 'v': 's'}, 'my-unit', 'u' * 127, 'u' * 128, 'u' * 255]
 ROUTES = ['kw', 'dict', 'as', 'later', 'setattrs']
 
@@ -166,11 +178,13 @@ def build_spec(kind: str, mode: str, ctx: Any, tier: str) -> tuple[dict, dict]:
     for ad in settable(kind):
         opts = options(kind, ad, tier)
         d0 = FULL_OVERRIDES.get((kind, ad.kw), opts[0])
+        if mode == 'rank2':
+            d0 = RANK2_OVERRIDES.get((kind, ad.kw), d0)
         if kind == 'frame' and ad.kw == 'channels':
             v = ctx.choose('a:channels', opts)
             assigned[ad.kw] = v
             continue
-        if mode == 'full':
+        if mode in ('full', 'rank2'):
             menu = [('set', d0)] + [('set', o) for o in opts if o != d0] + [('unset', None)]
         else:
             menu = [('unset', None), ('set', d0)] + [('set', o) for o in opts if o != d0]
